@@ -7,6 +7,13 @@ func init() {
 
 // genC15: histories cut short by every teardown cause, optionally during a slow callback.
 func genC15(p *Plan, r *RNG) {
+	if r.Chance(1, 15) {
+		// a stream client that reconnects from the same address while its old connection is
+		// still being cleaned up: two connections, one 5-tuple - and Server.Close at the end
+		genC06Reconnect(p, r)
+		p.Flavor = "teardown:" + p.Flavor
+		return
+	}
 	if r.Chance(1, 20) {
 		// connections of a TLS listener are resources too: handshakes that fail, stall or never start
 		genC09TLS(p, r)
